@@ -156,7 +156,7 @@ fn ext_alphabet() -> Vec<Value> {
 fn grid(out: &mut Out, deep: bool, seed: u64) {
     let mut rng = vcommon::rng(seed);
     let al = ext_alphabet();
-    let kts: &[&str] = if deep { &["ed25519", "secp256k1", "ecdsa"] } else { &["ed25519", "secp256k1"] };
+    let kts: &[&str] = if deep { &["ed25519", "secp256k1", "ecdsa", "rsa"] } else { &["ed25519", "secp256k1"] };
     let mut seqs: Vec<Vec<Value>> = vec![vec![]];
     for a in &al {
         seqs.push(vec![a.clone()]);
@@ -213,7 +213,9 @@ fn mutate_one(out: &mut Out, kt: &str, base: &[u8], names: &[(PeerId, &str)], m:
 }
 
 fn mutations(out: &mut Out, deep: bool) {
-    for kt in ["ed25519", "secp256k1", "ecdsa"] {
+    let kts: &[&str] = if deep { &["ed25519", "secp256k1", "ecdsa", "rsa"] } else { &["ed25519", "secp256k1", "ecdsa"] };
+    for kt in kts {
+        let kt: &str = kt;
         let host = keypair(kt);
         let names = [(host.public().to_peer_id(), "H")];
         let base = certificate::generate(&host).expect("generate").0.as_ref().to_vec();
